@@ -1556,6 +1556,28 @@ Proof.
   apply Ha in Hr. rewrite Hv in Hr. discriminate.
 Qed.
 
+(* what "required" means for a scalar declared without [optional]: the compiled field
+   has no presence of its own, so the message in which it holds the default value
+   (0, "", false, UNSPECIFIED) IS the message in which it is not set — and the
+   validator rejects it. (A JSON document carrying an explicit 0 decodes to that same
+   message: at the level of compiled messages the two cannot be told apart.) *)
+Theorem c12_required_default re_ok re_match pat_sem :
+  engine_ok re_ok re_match pat_sem ->
+  forall env idx name t desc o v,
+    wf_env env = true ->
+    fty_patterns_ok re_ok t = true ->
+    is_msg_ty t = false ->
+    write_prop env idx (P name true false (PSingle t) desc) = Ok o ->
+    value_typed t v = true -> is_zero v = true ->
+    validate_sem re_ok re_match (defined_numbers env) o (FOne v) = VReject.
+Proof.
+  intros He env idx name t desc o v Hwf Hp Hm Hw Hty Hz.
+  rewrite (c12_verdict re_ok re_match (proj1 (proj2 He)) (engine_id62_bool re_ok re_match pat_sem He)
+             env idx (P name true false (PSingle t) desc) o (FOne v) Hwf eq_refl Hw Hty).
+  cbn [p_ty elem_ty]. rewrite Hp. cbn [negb]. unfold unique_on_messages. cbn [p_ty andb].
+  unfold rule_semb, must_b. cbn [p_ty p_req p_opt orb]. rewrite Hm, Hz. reflexivity.
+Qed.
+
 (* components, in the form the props file states them *)
 Lemma int_bounds_sem rm defined k r c z :
   write_int_rules k r = Ok c ->
